@@ -429,6 +429,8 @@ def r5_to_ron(ctx):
 
 
 def run(ctx):
+    ctx.guard("C15.R9", "the exports write the compressed form of the whole log", lambda: r9_exports(ctx))
+    ctx.guard("C15.R8", "the logger initialises its triggers", lambda: r8_logger_init(ctx))
     ctx.guard("C15.R7", "the logger reaches its LogConfig through State::holding: T is put back into the scope it came from", lambda: __import__("c02").r4_holding(ctx, "C15.R7"))
     ctx.guard("C15.R1", "logger", lambda: r1_logger(ctx))
     ctx.guard("C15.R3", "compressed export", lambda: r3_compressed(ctx))
@@ -486,3 +488,115 @@ def r6_names_are_identifiers(ctx):
     ctx.floor("C15.R6", "struct / variant names handed to serializers", n, 80)
     if not any(r.get("rule") == "C15.R6" and r.get("verdict") == "violation" for r in ctx.results):
         ctx.ok("C15.R6", "crate", "names-are-identifiers", "%d name arguments" % n)
+
+
+def r8_logger_init(ctx):
+    """K6: Logger::init with a LogConfig of 0..3 rules: every rule's trigger is initialised exactly once, in rule order, the
+    first failure stops and is returned; without a LogConfig nothing happens.  (Stateful triggers - every-n, change-of,
+    less-than-n - keep their memory in state their init inserts: an uninitialised trigger errs on its first evaluation and
+    the logger execution with it.)"""
+    F = ctx.facts
+    fn = F.method(LOG + "logger::Logger", "init", "mahf::components::Component")
+    RULE = LOG + "config::ExtractionRule"
+    CONF = LOG + "config::LogConfig"
+    ti, xi = F.field_index(RULE, "trigger"), F.field_index(RULE, "extractor")
+    bad = []
+    n = 0
+    conf_home = 10002
+    for have in (True, False):
+        for k in (range(0, 4) if have else (0,)):
+            for fail in [None] + list(range(k)):
+                rules = []
+                for i in range(k):
+                    vals = [None, None]
+                    vals[ti] = Sym("trigger:%d" % i, boxlike=True)
+                    vals[xi] = Sym("extractor:%d" % i, boxlike=True)
+                    rules.append(Agg("adt", RULE, "ExtractionRule", vals))
+                seen = []
+
+                def ini(interp, env, f, args, fail=fail):
+                    c = load(interp, env, args[0])
+                    i = int(c.tag.split(":")[1]) if isinstance(c, Sym) and c.tag.startswith("trigger:") else -1
+                    seen.append(i)
+                    return err(Sym("boom")) if i == fail else ok(Agg("tuple", None, None, []))
+
+                def holding(interp, env, f, args):
+                    if not have:
+                        return err(Sym("StateError::NotFound"))
+                    outs_ = interp.call_value(args[1], [Ref(conf_home, [], frame="root"), args[0]])
+                    if outs_ and len(outs_) == 1 and outs_[0][2] == "return":
+                        interp.mstate.clear()
+                        interp.mstate.update(outs_[0][3])
+                        return outs_[0][0]
+                    return TOP
+                table = {COND + "::init": ini, "mahf::state::State::holding": holding, "mahf::state::registry::StateRegistry::contains": have}
+                it = install(Interp(fn.body, chain(mk_oracle(table), coll_oracle, std_oracle), [Sym("self"), Sym("problem"), Sym("state")], facts=F, inline=INL, max_visits=12))
+                it.extra_env = {conf_home: Agg("adt", CONF, "LogConfig", [Vec("rules")])}
+                it.init_state = {"heap": {"rules": tuple(rules)}, "next_vec": 0}
+                n += 1
+                outs = [(p.end, p.ret.variant if isinstance(p.ret, Agg) else None) for p in it.run()]
+                want_seen = [] if not have else (list(range(k)) if fail is None else list(range(fail + 1)))
+                want = [("return", "Ok" if fail is None else "Err")]
+                if outs != want or seen != want_seen:
+                    bad.append(("%d rule(s)" % k if have else "no LogConfig", fail, "ends %s after initialising triggers %s; expected %s after %s" % (outs, seen, want, want_seen)))
+    ctx.check(not bad, "C15.R8", fn.key, "every-trigger-initialised-once", "%s, trigger %s failing: Logger::init %s" % (bad[0] if bad else ("", "", "")), detail="%d scenarios" % n, loc=fn.loc())
+
+
+def r9_exports(ctx):
+    """K6 on Log::to_json / to_cbor: exactly one serialisation, of the compressed form (CompressedLog::from - decided by R3) of
+    the WHOLE log `self`, into a writer on the file created at the caller's path; Ok iff creating the file and serialising
+    succeed.  The codecs themselves (serde_json, ciborium) are trusted."""
+    F = ctx.facts
+    n = 0
+    for name, crate in (("to_json", "serde_json"), ("to_cbor", "ciborium")):
+        fn = F.fn(LOG + "log::Log::" + name)
+        bad = []
+        for create_ok in (True, False):
+            for ser_ok in ((True, False) if create_ok else (True,)):
+                events = []
+
+                def oracle(interp, env, f, args, t, bb, path, create_ok=create_ok, ser_ok=ser_ok):
+                    k = f.get("key", "")
+                    nm = f.get("name")
+                    vals = [load(interp, env, a) for a in args]
+                    if k == "std::fs::File::create":
+                        events.append(("create", str(vals[0])))
+                        return ok(Sym("file")) if create_ok else err(Sym("io-error"))
+                    if k in ("std::io::buffered::bufwriter::BufWriter::new", "std::io::BufWriter::new", "std::io::buffered::bufwriter::BufWriter::with_capacity"):
+                        return Sym("writer(%s)" % getattr(vals[-1], "tag", "?"))
+                    if k in ("core::convert::AsRef::as_ref",) and vals and isinstance(vals[0], Sym):
+                        return vals[0]
+                    if (k in ("core::convert::Into::into", "core::convert::From::from")) and "CompressedLog" in " ".join(f.get("gargs") or []):
+                        return Sym("compressed(%s)" % getattr(vals[0], "tag", "?"))
+                    if k.startswith(crate + "::") or k.startswith("serde_json::") or k.startswith("ciborium::"):
+                        tags = sorted(getattr(v, "tag", "?") for v in vals)
+                        events.append(("serialise", nm, tuple(tags)))
+                        if "writer" in nm:
+                            return ok(Agg("tuple", None, None, [])) if ser_ok else err(Sym("codec-error"))
+                        return ok(Sym("bytes-of:" + "+".join(tags))) if ser_ok else err(Sym("codec-error"))
+                    if nm in ("write_all", "write") and len(vals) == 2:
+                        events.append(("write", getattr(vals[0], "tag", "?"), getattr(vals[1], "tag", "?")))
+                        return ok(Agg("tuple", None, None, []))
+                    if nm in ("as_bytes", "as_slice", "as_str", "flush") and vals:
+                        return vals[0] if nm != "flush" else ok(Agg("tuple", None, None, []))
+                    return TOP
+                it = install(Interp(fn.body, chain(oracle, coll_oracle, std_oracle), [Sym("log"), Sym("path")], facts=F, inline=lambda k: k.startswith(LOG + "log::") or k.startswith("<" + LOG + "log::Log"), max_visits=8))
+                n += 1
+                outs = [(p.end, p.ret.variant if isinstance(p.ret, Agg) else None) for p in it.run()]
+                want = [("return", "Ok" if create_ok and ser_ok else "Err")]
+                ser = [e for e in events if e[0] == "serialise"]
+                wr = [e for e in events if e[0] == "write"]
+                label = ("file creation %s, codec %s" % ("succeeds" if create_ok else "fails", "succeeds" if ser_ok else "fails"),)
+                if outs != want:
+                    bad.append(label + ("ends %s, expected %s" % (outs, want),))
+                elif [e for e in events if e[0] == "create"] != [("create", "Sym(path)")]:
+                    bad.append(label + ("creates %s, expected exactly the file at the caller's path" % [e for e in events if e[0] == "create"],))
+                elif create_ok:
+                    direct = len(ser) == 1 and set(ser[0][2]) == {"compressed(log)", "writer(file)"}
+                    via_buffer = len(ser) == 1 and set(ser[0][2]) == {"compressed(log)"} and ser_ok and len(wr) == 1 and wr[0][1] == "writer(file)" and "compressed(log)" in wr[0][2]
+                    if not (direct or via_buffer or (not ser_ok and len(ser) == 1 and "compressed(log)" in ser[0][2])):
+                        bad.append(label + ("serialises %s / writes %s; expected one serialisation of the compressed form of the whole log into the writer on that file" % (ser, wr),))
+                elif ser:
+                    bad.append(label + ("serialises although the file could not be created",))
+        ctx.check(not bad, "C15.R9", fn.key, "whole-log-compressed-into-the-file", "%s: %s %s" % ((bad[0][0], name, bad[0][1]) if bad else ("", name, "")), loc=fn.loc())
+    ctx.count("export_scenarios", n)
